@@ -1611,9 +1611,13 @@ def minimum_enclosing_circle(labels, indexes=None, hull_and_point_count=None):
         # Use "indexes" instead of labels_to_consider so we get something
         # with the same shape as keep_me
         #
-        min_position = scind.minimum_position(angle_s0vs1, v_labels, indexes)
-        min_position = fixup_scipy_ndimage_result(min_position).astype(int)
-        min_position = min_position.flatten()
+        # first vertex of smallest angle per label (scind.minimum_position breaks ties
+        # through an unstable sort of all labels' angles together)
+        order = np.lexsort((np.arange(len(v_labels)), angle_s0vs1, v_labels))
+        first = np.ones(len(order), bool)
+        first[1:] = v_labels[order][1:] != v_labels[order][:-1]
+        min_position = np.zeros(len(indexes), int)
+        min_position[anti_indexes[v_labels[order][first]]] = order[first]
         #
         # Case 1: minimum angle is obtuse or right. Accept S as the diameter.
         # Case 1a: there are no vertices. Accept S as the diameter.
